@@ -22,6 +22,31 @@ var tricky = []string{"&amp;amp;", "&amp;lt;b&amp;gt;", "&#38;#35;", "\\\\*", "\
 // filter lets through
 var attrNames = strings.Split("accesskey,autocapitalize,autofocus,class,contenteditable,dir,draggable,enterkeyhint,hidden,id,inert,inputmode,is,itemid,itemprop,itemref,itemscope,itemtype,lang,part,role,slot,spellcheck,style,tabindex,title,translate,title,lang,hidden,itemref,inert,slot,autofocus,draggable,align,width,cite,data-x,onclick,aria-label", ",")
 
+// randCase: s with every letter's case chosen by the generator. Wherever goldmark matches
+// names case-insensitively (HTML tag names, URL schemes, www., attribute names) each spelling
+// is a value of its own for anything that caches, interns or learns spellings.
+func randCase(r *Rng, s string) string {
+	b := []byte(s)
+	mode := r.Intn(4) // 0 as is, 1 upper, 2 capitalised, 3 per letter
+	for i, c := range b {
+		up := false
+		switch mode {
+		case 1:
+			up = true
+		case 2:
+			up = i == 0
+		case 3:
+			up = r.Chance(1, 2)
+		}
+		if up && c >= 'a' && c <= 'z' {
+			b[i] = c - 32
+		}
+	}
+	return string(b)
+}
+
+var blockTags = strings.Split("address,article,aside,base,blockquote,body,caption,center,col,colgroup,dd,details,dialog,dir,div,dl,dt,fieldset,figcaption,figure,footer,form,frame,frameset,h1,h2,h6,head,header,hr,html,iframe,legend,li,link,main,menu,menuitem,nav,noframes,ol,optgroup,option,p,param,section,summary,table,tbody,td,tfoot,th,thead,title,tr,track,ul,pre,script,style,textarea,span,custom-tag", ",")
+
 func word(r *Rng) string {
 	if r.Chance(1, 12) {
 		return pick(r, tricky)
@@ -225,6 +250,9 @@ func genFamily(r *Rng, fam string) []byte {
 			var as []string
 			for j := r.Range(1, 5); j > 0; j-- {
 				n := pick(r, attrNames)
+				if r.Chance(1, 5) {
+					n = randCase(r, n)
+				}
 				switch r.Intn(4) {
 				case 0:
 					as = append(as, fmt.Sprintf("%s=%s", n, pick(r, words[:11])))
@@ -247,7 +275,7 @@ func genFamily(r *Rng, fam string) []byte {
 	case "tasklist":
 		fmt.Fprintf(&b, "- [x] %s\n- [ ] %s\n- [X]%s\n", word(r), word(r), word(r))
 	case "linkify":
-		fmt.Fprintf(&b, "www.%s.com and http://%s.org/p?q=1&r=2 and %s@example.com.\n", "example", "site", "me")
+		fmt.Fprintf(&b, "%s%s.com and %s//%s.org/p?q=1&r=2 and %s@%s.com. <%s//%s.example/> ftp://%s.net\n", randCase(r, "www."), pick(r, words[:8]), randCase(r, pick(r, []string{"http:", "https:", "ftp:", "custom:"})), pick(r, words[:8]), pick(r, words[:8]), randCase(r, "example"), randCase(r, pick(r, []string{"http:", "https:", "mailto:", "irc:"})), pick(r, words[:8]), pick(r, words[:8]))
 	case "strike":
 		fmt.Fprintf(&b, "~~%s~~ and ~%s~ and ~~~%s~~~\n", word(r), word(r), word(r))
 	case "cjk":
@@ -262,6 +290,28 @@ func genFamily(r *Rng, fam string) []byte {
 		opts := []string{"*%s* **%s** ***x*** _a_ __b__\n", "*%s **%s* x**\n", "**%s*%s\n", "_%s_%s_ *a*b*\n", "***%s** %s*\n"}
 		fmt.Fprintf(&b, pick(r, opts), word(r), word(r))
 	case "html":
+		if r.Chance(1, 2) {
+			// HTML blocks and inline tags with tag names in every spelling: a complete tag alone on
+			// its line, a tag followed by text, closing tags, tags with attributes
+			for i := r.Range(1, 4); i > 0; i-- {
+				t := randCase(r, pick(r, blockTags))
+				switch r.Intn(6) {
+				case 0:
+					fmt.Fprintf(&b, "<%s>\n%s\n</%s>\n\n", t, word(r), t)
+				case 1:
+					fmt.Fprintf(&b, "<%s>%s\n\n", t, word(r))
+				case 2:
+					fmt.Fprintf(&b, "</%s>\n*%s*\n\n", t, word(r))
+				case 3:
+					fmt.Fprintf(&b, "<%s class=\"%s\" %s>\n\n%s\n\n", t, word(r), randCase(r, "hidden"), word(r))
+				case 4:
+					fmt.Fprintf(&b, "%s <%s>%s</%s> <%s/>\n\n", word(r), t, word(r), randCase(r, t), t)
+				default:
+					fmt.Fprintf(&b, "  <%s\n  id=\"%s\">\n%s\n\n", t, word(r), word(r))
+				}
+			}
+			break
+		}
 		opts := []string{"<div class=\"%s\">\n*x*\n</div>\n\npara <span>%s</span> <!-- c -->\n", "<script>\n%s\n</script>\nafter %s\n", "a <b>%s</b> <a href=\"%s\">\n"}
 		fmt.Fprintf(&b, pick(r, opts), word(r), word(r))
 	case "list":
